@@ -695,6 +695,11 @@ def merge_measure_contents(notes, other, measure_start):
         if i == 0:  # voice == merge_voice:
             elements = merged[voice]
 
+        elif notes[voice]:
+            # (insert <forward> elements where the voice is silent between
+            # two of its notes)
+            elements, _ = merge_with_voice(notes[voice], [], notes[voice][0][0])
+
         else:
             elements = notes[voice]
 
